@@ -38,6 +38,7 @@ class C09(Check):
             hv[2] = None if rng.random() < 0.4 else (rng.choice([1.15, 0.57, 7.0]) if hv[0] == "x" else rv(rng, hv[0]))   # written from Python
         case["table_last"] = rng.random() < 0.5
         case["second_instance"] = rng.random() < 0.4
+        case["rewrite"] = [i for i in range(len(case["hashvars"])) if rng.random() < 0.4]
         keys = [[rv(rng, f) for f in case["key"]] for _ in range(3)]
         for k in keys[:rng.randint(0, 2)]:
             case["entries"].append([k, [rv(rng, f) for f in case["value"]]])
@@ -233,6 +234,16 @@ class C09(Check):
             sim.maps[fd]["data"] = {bytes(k): bytes(regions[i]) for k, i in ents}
         out = {"locals": loc, "defaults": b["defaults"], "hash": [], "dict": {}, "errors": []}
         e = b["e"]
+        # after the program has run, Python assigns some variables the SAME value it assigned (or the default it loaded) before:
+        # that must overwrite whatever the program stored meanwhile
+        with sim_bpf.installed(sim):
+            for i in case.get("rewrite", []):
+                if i < len(case["hashvars"]):
+                    f, d, w = case["hashvars"][i]
+                    try:
+                        setattr(e, f"h{i}", d if w is None else w)
+                    except Exception as ex:      # noqa
+                        out["errors"].append(f"rewriting h{i}: {type(ex).__name__}: {ex}")
         with sim_bpf.installed(sim):
             for i in range(len(case["hashvars"])):
                 try:
@@ -303,6 +314,10 @@ class C09(Check):
                         return f"update of {key} returned {o['locals'][f'ret{j}']}" + what
                 elif o["locals"][f"ret{j}"] == 0:
                     return f"update of a full Dict returned 0" + what
+        for i in case.get("rewrite", []):
+            if i < len(case["hashvars"]):
+                f, d, w = case["hashvars"][i]
+                hv[i] = d if w is None else w
         for i, (f, d, w) in enumerate(case["hashvars"]):
             got = o["hash"][i]
             if (not isinstance(got, (int, float))) or ((abs(got - hv[i]) > 1e-9) if f == "x" else got != hv[i]):
@@ -321,7 +336,7 @@ class C09(Check):
     def rule(self):
         return ("0-4 hash-map variables (all formats incl. x) with declared defaults, 60% rewritten from Python; a Dict (1-3 key and value members of all sizes, "
                 "capacity 2/4/31) with 0-2 entries inserted from Python; program: 1-5 operations out of read / write a hash variable, look up a present or absent "
-                "key and read or modify a member (Else branch marks absence), update (insert / overwrite / full); 40%: a second instance of the same program class (maps of its own) is created and loaded in between; afterwards Python reads everything back")
+                "key and read or modify a member (Else branch marks absence), update (insert / overwrite / full); 40%: a second instance of the same program class (maps of its own) is created and loaded in between; afterwards Python re-assigns 40% of the hash variables the value it had given them before the run and reads everything back")
 
     def distribution(self, cases, observed):
         d = {"hread": 0, "hwrite": 0, "hinc": 0, "dlookup": 0, "dupdate": 0, "errors": 0}
